@@ -574,7 +574,7 @@ fn five_reasons_case(idx: u64, rec: &mut Rec) {
     if status == 302 {
         head.fields.push(Field::new("Location", b"/n"));
     }
-    let ex = Exchange { cfg, req_body: b"abc".to_vec(), handshake: Handshake::Refused, interim_reason: "", head, body: BodyPlan::Bare, close_data: b"tail".to_vec() };
+    let ex = Exchange { cfg, req_body: b"abc".to_vec(), handshake: Handshake::Refused, interim_reason: "", head, body: BodyPlan::Bare, close_data: b"tail".to_vec(), extra_interim: 0 };
     let (stream, truth) = ex.render().unwrap();
     let flow = build_flow(&ex.cfg).unwrap();
     let mut rng = Rng::new(idx);
